@@ -189,3 +189,137 @@ func (c *Ctx) mentionedAfter(body *ast.BlockStmt, after token.Pos, v *types.Var)
 	})
 	return found
 }
+
+func init() {
+	registerRule("pointer-consumed-whole", 0, "a shortcut that answers a JSON pointer from its first tokens has bounded the number of tokens from above", rulePointerConsumedWhole)
+}
+
+// rulePointerConsumedWhole: a function that takes the decoded tokens of a JSON pointer, reads tokens at constant
+// positions and answers from them has consumed the whole pointer only if the number of tokens is bounded from above
+// (len(tokens) == n, != n, > n, <= n, a switch on len(tokens)) - or the rest is visibly dealt with (tokens ranged over,
+// re-sliced or handed on). A function that tests len(tokens) only from below (len(tokens) < 2) answers
+// #/definitions/a/properties/b with the definition a: the deeper part of the pointer is ignored and the $ref resolves
+// to the wrong node. The unchanged tree has no such shortcut (all lookups go through jsonpointer.Get); the rule is
+// fail-open (silent where the shape is not recognised) and exists for shortcuts added later.
+func rulePointerConsumedWhole(c *Ctx) {
+	const rule = "pointer-consumed-whole"
+	for _, fd := range c.allFuncDecls() {
+		if fd.Body == nil {
+			continue
+		}
+		// locals initialised from (jsonpointer.Pointer).DecodedTokens()
+		var toks []*types.Var
+		ast.Inspect(fd.Body, func(n ast.Node) bool {
+			as, ok := n.(*ast.AssignStmt)
+			if !ok || len(as.Lhs) != 1 || len(as.Rhs) != 1 {
+				return true
+			}
+			call, ok := as.Rhs[0].(*ast.CallExpr)
+			if !ok {
+				return true
+			}
+			f, ok := c.callee(call).(*types.Func)
+			if !ok || f.Name() != "DecodedTokens" || f.Pkg() == nil || f.Pkg().Name() != "jsonpointer" {
+				return true
+			}
+			if id, ok := as.Lhs[0].(*ast.Ident); ok {
+				if v, ok := c.objOf(id).(*types.Var); ok {
+					toks = append(toks, v)
+				}
+			}
+			return true
+		})
+		for _, v := range toks {
+			fn := c.funcName(fd)
+			c.saw(fn)
+			constIndexed, lower, upper, other := false, false, false, false
+			isV := func(e ast.Expr) bool {
+				id, ok := ast.Unparen(e).(*ast.Ident)
+				return ok && c.objOf(id) == v
+			}
+			isLen := func(e ast.Expr) bool {
+				call, ok := ast.Unparen(e).(*ast.CallExpr)
+				if !ok || len(call.Args) != 1 || !isV(call.Args[0]) {
+					return false
+				}
+				id, ok := call.Fun.(*ast.Ident)
+				return ok && id.Name == "len" && c.objOf(id) == types.Universe.Lookup("len")
+			}
+			accounted := map[*ast.Ident]bool{} // occurrences of v inside a recognised construct
+			mark := func(e ast.Node) {
+				ast.Inspect(e, func(x ast.Node) bool {
+					if id, ok := x.(*ast.Ident); ok && c.objOf(id) == v {
+						accounted[id] = true
+					}
+					return true
+				})
+			}
+			ast.Inspect(fd.Body, func(n ast.Node) bool {
+				switch x := n.(type) {
+				case *ast.IndexExpr:
+					if isV(x.X) {
+						mark(x.X)
+						if tv, ok := c.Info.Types[x.Index]; ok && tv.Value != nil {
+							constIndexed = true
+						} else {
+							other = true
+						}
+					}
+				case *ast.BinaryExpr:
+					l, r := isLen(x.X), isLen(x.Y)
+					if !l && !r {
+						return true
+					}
+					if l {
+						mark(x.X)
+					} else {
+						mark(x.Y)
+					}
+					op := x.Op
+					if r { // n OP len(v)  ==  len(v) OP' n
+						switch op {
+						case token.LSS:
+							op = token.GTR
+						case token.GTR:
+							op = token.LSS
+						case token.LEQ:
+							op = token.GEQ
+						case token.GEQ:
+							op = token.LEQ
+						}
+					}
+					switch op {
+					case token.EQL, token.NEQ, token.GTR, token.LEQ:
+						upper = true
+					case token.LSS, token.GEQ:
+						lower = true
+					default:
+						other = true
+					}
+				case *ast.SwitchStmt:
+					if x.Tag != nil && isLen(x.Tag) {
+						mark(x.Tag)
+						upper = true
+					}
+				}
+				return true
+			})
+			// any other occurrence of v (ranged over, re-sliced, handed on, returned, len() stored): the rest may be dealt with
+			ast.Inspect(fd.Body, func(n ast.Node) bool {
+				if id, ok := n.(*ast.Ident); ok && c.objOf(id) == v && !accounted[id] && id.Pos() != v.Pos() {
+					other = true
+				}
+				return true
+			})
+			if !constIndexed || other {
+				continue // shape not recognised: no verdict (fail-open, see above)
+			}
+			key := fn + ":" + v.Name()
+			if upper {
+				c.ob(rule, key, fd.Pos(), true, "")
+			} else if lower {
+				c.ob(rule, key, fd.Pos(), false, fmt.Sprintf("%s holds the decoded tokens of a JSON pointer; the function reads them at constant positions and tests len(%s) only from below, so a pointer with more tokens is answered from its first tokens and the rest is ignored (#/definitions/a/properties/b yields the definition a)", v.Name(), v.Name()))
+			}
+		}
+	}
+}
